@@ -1469,6 +1469,27 @@ impl<'a> Lifter<'a> {
                 let inner = r.expr.as_ref().ok_or("return without value")?;
                 self.expr(inner)
             }
+            Expr::Assign(a) if matches!(&*a.left, Expr::Field(f) if matches!(&*f.base, Expr::Path(p) if p.path.get_ident().is_some()) && matches!(f.member, syn::Member::Named(_))) => {
+                // `x.f = e;` on a local record: `let x = L_T { f: e, ..x }`
+                let Expr::Field(f) = &*a.left else { unreachable!() };
+                let Expr::Path(p) = &*f.base else { unreachable!() };
+                let var = p.path.get_ident().unwrap().to_string();
+                let syn::Member::Named(fname) = &f.member else { unreachable!() };
+                let ty = self.lookup(&var).ok_or(format!("assignment to a field of unbound `{var}`"))?;
+                let sname = ty.strip_prefix("L_").unwrap_or(&ty).to_string();
+                let fields = self.reg.structs.get(&sname).cloned().ok_or(format!("construct outside rule list (lift): field assignment on {ty}"))?;
+                let fty = fields.iter().find(|(k, _)| fname == k).map(|(_, t)| t.clone()).ok_or(format!("construct outside rule list (lift): no field `{fname}` in {ty}"))?;
+                if self.captured(&var) {
+                    return Err(format!("construct outside rule list (lift): field assignment to `{var}`, captured by a closure that runs more than once"));
+                }
+                let x = self.expr(&a.right)?;
+                if x.ty != fty {
+                    return Err(format!("construct outside rule list (lift): field {fname}: {fty} assigned a {}", x.ty));
+                }
+                self.note("L5", e.span(), "field assignment lifted to a record update");
+                let r = self.rest(rest, cont)?;
+                Ok(v(format!("{{ let {var} = {ty} {{ {fname}: {}, ..{var} }}; {} }}", x.text, r.text), &r.ty))
+            }
             Expr::Assign(a) => {
                 let name = match &*a.left {
                     Expr::Path(p) if p.path.get_ident().is_some() => p.path.get_ident().unwrap().to_string(),
@@ -2158,6 +2179,21 @@ impl<'a> Lifter<'a> {
             && (self.self_ty.as_deref() == Some(first.as_str())
                 || (self.reg.types.get(&first).is_some() && (self.reg.types.get(&first) == self.self_ty.as_ref() || self.reg.types.get(&first) == self.reg.types.get("Self"))));
         let key = if path == "Self" { "Self_ctor".to_string() } else if first == "Self" || first == "State" || p.path.segments.len() == 1 { last.clone() } else if first_is_self_ty && !self.reg.fns.contains_key(&path.replace("::", "_")) { last.clone() } else { path.replace("::", "_") };
+        // overloaded externs (`//@ldeclare f@T1,T2(T1, T2) -> R`): resolved by the lifted argument types
+        if !self.reg.fns.contains_key(&key) && self.reg.fns.keys().any(|k| k.starts_with(&format!("{key}@"))) {
+            let mut args = Vec::new();
+            for a in &c.args {
+                args.push(self.expr(a)?);
+            }
+            let tys: Vec<String> = args.iter().map(|a| a.ty.clone()).collect();
+            let okey = format!("{key}@{}", tys.join(","));
+            if let Some((_, rty)) = self.reg.fns.get(&okey).cloned() {
+                let fname = okey.replace('@', "__").replace(',', "_").replace(['<', '>', ' '], "");
+                self.note("L13", whole.span(), &format!("call lifted to the overload `{okey}`"));
+                return Ok(v(format!("crate::{fname}({})", args.iter().map(|a| a.text.clone()).collect::<Vec<_>>().join(", ")), &rty));
+            }
+            return Err(format!("construct outside rule list (lift): no overload `{okey}` declared"));
+        }
         if let Some((ptys, rty)) = self.reg.fns.get(&key).cloned() {
             let mut args = Vec::new();
             for a in &c.args {
@@ -2543,6 +2579,20 @@ impl<'a> Lifter<'a> {
             }
             _ => {}
         }
+        // overloaded methods: `name@RecvTy,ArgTy..`
+        if !self.reg.fns.contains_key(&name) && self.reg.fns.keys().any(|k| k.starts_with(&format!("{name}@"))) {
+            let mut tys = vec![recv.ty.clone()];
+            tys.extend(args.iter().map(|a| a.ty.clone()));
+            let okey = format!("{name}@{}", tys.join(","));
+            if let Some((_, rty)) = self.reg.fns.get(&okey).cloned() {
+                let fname = okey.replace('@', "__").replace(',', "_").replace(['<', '>', ' '], "");
+                let mut all = vec![recv.text.clone()];
+                all.extend(args.iter().map(|a| a.text.clone()));
+                self.note("L13", whole.span(), &format!("method call lifted to the overload `{okey}`"));
+                return Ok(v(format!("crate::{fname}({})", all.join(", ")), &rty));
+            }
+            return Err(format!("construct outside rule list (lift): no overload `{okey}` declared"));
+        }
         // methods lifted in this unit or declared extern: f(recv, args)
         if let Some((ptys, rty)) = self.reg.fns.get(&name).cloned() {
             if ptys.len() != args.len() + 1 {
@@ -2616,6 +2666,7 @@ pub fn lextern(ctx: &mut Ctx, raw: &str, emit: bool) -> Result<(String, Value), 
     ctx.lift.fns.insert(name.clone(), (ptys.clone(), ret.clone()));
     let text = if emit {
         let ps: Vec<String> = ptys.iter().enumerate().map(|(i, t)| format!("a{i}: {t}")).collect();
+        let name = name.replace('@', "__").replace(',', "_").replace(['<', '>', ' '], "");
         format!("pub uninterp spec fn {name}({}) -> {ret};   // L13\n", ps.join(", "))
     } else {
         format!("// ldeclare {raw}\n")
@@ -2711,6 +2762,23 @@ pub fn lstruct(ctx: &mut Ctx, blk: &Block) -> Result<(String, Value), String> {
         json!({"item": format!("struct {name} (lifted)"), "file": file, "src_lines": [line_of(src, s0), line_of(src, e0)], "src_bytes": [s0, e0],
                "dropped": dropped.iter().map(|d| format!("field {d}")).collect::<Vec<_>>(), "mode": "lift"}),
     ))
+}
+
+/// `//@lrecord <RustTypeName> f1:t1,f2:t2` — a record type of a dependency declared by hand (its field names are an
+/// assumption listed in the unit): lifted struct L_<Name>
+pub fn lrecord(ctx: &mut Ctx, blk: &Block) -> Result<(String, Value), String> {
+    if blk.args.len() < 2 {
+        return Err("lrecord: <Name> f1:t1,f2:t2".into());
+    }
+    let name = blk.args[0].clone();
+    let mut fields = Vec::new();
+    for kv in blk.args[1..].join("").split(',') {
+        let (k, t) = kv.split_once(':').ok_or("lrecord: field:type")?;
+        fields.push((k.trim().to_string(), t.trim().to_string()));
+    }
+    ctx.lift.structs.insert(name.clone(), fields.clone());
+    let body: Vec<String> = fields.iter().map(|(k, t)| format!("    pub {k}: {t},")).collect();
+    Ok((format!("pub struct L_{name} {{\n{}\n}}\n", body.join("\n")), json!({"item": format!("record {name} (declared)"), "mode": "lift"})))
 }
 
 pub fn lift_fn(ctx: &mut Ctx, blk: &Block) -> Result<(String, Value), String> {
@@ -2903,6 +2971,8 @@ pub fn lift_fn(ctx: &mut Ctx, blk: &Block) -> Result<(String, Value), String> {
     let fblock: &syn::Block = synth_block.as_ref().unwrap_or(f.block);
     let ret_ty = match &f.sig.output {
         _ if blk.opt("closure").is_some() || blk.opt("tail_from").is_some() => blk.opt("ret").ok_or("lift: closure= / tail_from= need ret=<type>")?.to_string(),
+        // `ret=<type>` overrides a return type the type lifter cannot read (qualified associated types)
+        _ if blk.opt("ret").is_some() => blk.opt("ret").unwrap().to_string(),
         syn::ReturnType::Default => match &out_param {
             Some(p) => params.iter().find(|(n, _)| n == p).unwrap().1.clone(),
             None => return Err("construct outside rule list (lift): function returns () and has no &mut parameter".into()),
